@@ -7,6 +7,7 @@ from . import core  # noqa: F401
 from . import mol_gen  # noqa: F401
 from . import distribution  # noqa: F401
 from . import stochastic  # noqa: F401
+from . import generable  # noqa: F401
 from . import mixture  # noqa: F401
 from . import system  # noqa: F401
 from . import forcefield  # noqa: F401
